@@ -123,6 +123,46 @@ func c14Scenarios(tier string) []*core.Scenario {
 				}
 			}})
 	}
+	// the same law inside the .text section of a WCOFF object (the object writer sees the END of the code: whatever
+	// it does with the last statements - trailing reserved space, padding - must not depend on what follows)
+	{
+		cpool := []string{"RESB 8", "RESB 5000", "DB 1", "DW 0x1234", "HLT", "DB 0,0,0,0", "DD 0"}
+		for i := 0; i < len(pool); i += len(pool)/16 + 1 {
+			cpool = append(cpool, pool[i])
+		}
+		coffProg := func(stmts []string) string {
+			return "[FORMAT \"WCOFF\"]\n" + c14Prog(32, nil) + "[FILE \"pair.nas\"]\n[SECTION .text]\n" + c14Prog(16, stmts)
+		}
+		scs = append(scs, &core.Scenario{
+			Name: "pairs_in_coff", Bound: -1,
+			Rule:   fmt.Sprintf("all ordered pairs of %d statements (RESB small and large, data, instructions) as the whole .text section of a WCOFF object: text(A;B) must equal text(A)||text(B)", len(cpool)),
+			Bounds: map[string]any{"pool": cpool},
+			Build: func(c *core.Chooser) *core.Case {
+				a := cpool[c.Pick("a", len(cpool))]
+				b := cpool[c.Pick("b", len(cpool))]
+				inner := c14Judge(2)
+				return &core.Case{
+					Key:       fmt.Sprintf("WCOFF|%s ; %s", a, b),
+					Feat:      feat("mode", "coff", "a", a, "b", b),
+					FreshRefs: true, Srcs: []string{coffProg([]string{a, b}), coffProg([]string{a}), coffProg([]string{b}), coffProg(nil)},
+					Judge: func(rs []*core.Result) core.Verdict {
+						cp := make([]*core.Result, len(rs))
+						for i, r := range rs {
+							x := *r
+							if !core.HardFailure(r) {
+								f := parseCOFF(r.Out)
+								if len(f.Problems) > 0 || len(f.Sections) < 1 {
+									return core.Verdict{Outcome: "bad_object", Fails: []core.Fail{{Facet: "concat", Dev: "object_unreadable", Detail: strings.Join(f.Problems, "; ")}}}
+								}
+								x.Out = f.sectionData(r.Out, 0)
+							}
+							cp[i] = &x
+						}
+						return inner(cp)
+					},
+				}
+			}})
+	}
 	equDefs := "FOO EQU 16\nBASE EQU 0x00100000\nSMALL EQU 3\n"
 	equStmts := []string{"MOV AX,FOO+1", "MOV BX,FOO", "DW FOO-1,FOO", "MOV CX,[BX+FOO]", "ADD DX,FOO*2", "DB FOO", "MOV EDI,BASE+512", "DD BASE", "MOV AL,FOO%SMALL", "DB SMALL+SMALL,SMALL",
 		"MOV ESI,BASE", "SUB CX,FOO-SMALL", "MOV BYTE [FOO],SMALL", "DD BASE/FOO,BASE-1", "RESB SMALL", "MOV SI,SMALL*FOO+1"}
